@@ -6,7 +6,7 @@ import z3
 from .values import *  # noqa
 from .core import *  # noqa
 from .core import _NOCONST
-from .interp import VEmptyList, VEmptySet, TOptObj, TDictRec, Interp, SpecUndef
+from .interp import VEmptyList, VEmptySet, TOptObj, TDictRec, Interp, SpecUndef, _has_nan
 from . import frontend
 from . import jsonmodel as JM
 from . import jsontree
@@ -782,7 +782,7 @@ def call(I, f, args, kwargs, node=None):
                 I.spec = saved
         if f.kind in ("ast", "lambda"):
             c = I.ver.contract_for_call(f, I)
-            if c is not None and any(isinstance(a, VNaN) for a in list(args) + list(kwargs.values())):
+            if c is not None and any(_has_nan(a) for a in list(args) + list(kwargs.values())):
                 c = None      # contracts are stated over real-valued floats: a nan argument is outside their types -> inline
             if c is not None:
                 return call_contract(I, c, f, args, kwargs)
